@@ -292,3 +292,41 @@ sbj_h!(k_subject_reenter__next_in_error_callback, false, |sbj, l1, l2| {
   assert!(l1.is(&[EV_E | id as u32]) && l2.is(&[EV_E | id as u32]), "subject.error: an item issued from inside an error callback reached an observer of the terminated subject (the observers were not dropped before the multicast)");
   assert!(held(&sbj) == 0, "subject.drops: observers still held after error");
 });
+
+// ---- handles: clones of a Subject, and Observable values obtained from it, are handles on ONE registry ------------------------
+// two subscriptions made through the SAME Observable value are independent registrations; a clone of the Subject draws its
+// registration keys from the same counter (publish / ref_count hand out clones)
+sbj_h!(k_subject_handles__same_observable_twice_and_a_cloned_subject, false, |sbj, l1, l2| {
+  // never more than two observers at once (bound of the map facade / unwind 3)
+  let o = sbj.observable();
+  let s1 = o.subscribe(move |x: u8| l1.push(EV_N | x as u32), move |e: RxError| l1.push(EV_E | err_id(&e)), move || l1.push(EV_C));
+  let s2 = o.subscribe(move |x: u8| l2.push(EV_N | x as u32), move |e: RxError| l2.push(EV_E | err_id(&e)), move || l2.push(EV_C));
+  assert!(held(&sbj) == 2, "subject.register: two subscriptions through the same Observable value are not two registrations");
+  s1.unsubscribe();
+  assert!(held(&sbj) == 1, "subject.drops: unsubscribing one of the subscriptions removed someone else (or nobody)");
+  let x: u8 = kani::any();
+  sbj.next(x);
+  assert!(l1.len() == 0 && l2.is(&[EV_N | x as u32]), "subject.next: the remaining subscribers did not each get the item once");
+  let l3 = Log::new();
+  let l4 = Log::new();
+  let twin = sbj.clone();
+  let _s3 = attach(&twin, l3);
+  assert!(held(&sbj) == 2, "subject.register: a subscription through a clone of the Subject displaced a registered observer");
+  s2.unsubscribe();
+  let _s4 = attach(&sbj, l4);
+  assert!(held(&sbj) == 2, "subject.register: a subscription through the original displaced the one made through its clone (the clone does not share the key counter)");
+  let y: u8 = kani::any();
+  twin.next(y);
+  assert!(l3.is(&[EV_N | y as u32]) && l4.is(&[EV_N | y as u32]), "subject.next: the remaining subscribers did not each get the item once");
+});
+
+// unsubscribing after the terminal has no effect - in particular it must not evict an observer that registered later
+sbj_h!(k_subject_unsubscribe_after_terminal__has_no_effect_on_later_observers, false, |sbj, l1, l2| {
+  let s1 = attach(&sbj, l1);
+  sbj.complete();
+  let _s2 = attach(&sbj, l2); // (a plain Subject accepts it: open known finding; this harness is about s1's late unsubscribe)
+  let before = held(&sbj);
+  s1.unsubscribe();
+  assert!(held(&sbj) == before, "subject.unsubscribe: unsubscribing after the terminal removed an observer that registered later");
+  assert!(l1.is(&[EV_C]), "subject.complete: trace of the first observer differs");
+});
